@@ -128,6 +128,13 @@ CHECKS = {
          "as_numpy_iterator for threads <,=,> #shards, all supported compressions, uneven shards, early close; the model's outputs under pseudo-random schedules are compared with both.",
     note="PARTIAL: Rust thread interleavings cannot be controlled or observed step by step from the harness, so the tie between M-PMAP and the Rust code is at the level of outputs and thread counts only; std::sync::mpsc FIFO/disconnect semantics are a specified external.",
     ref="DESIGN.md §5 C15, Appendix A.3"),
+ "C07": dict(
+    technique="Lean 4 proof (corollaries of exactly-once: a complete pass delivers every source element; lazy pool with a failing input: no normal end, no deadlock, finite schedules, terminal state = re-raised; Rust: dead worker reported, pinned semantics' truncation witnessed by decide) + fault planting under a watchdog over every interface, and scheduler-controlled pool runs",
+    text="C07_pool_fault_raises, C07_complete_pass_delivers_everything, C07_round_robin_delivers_everything, C07_rust_dead_worker_is_reported, C07_fstep_eq_step, C07_rust_original_truncates / _repaired_raises. "
+         "Shards are deleted / emptied / overwritten with garbage / truncated at the first, middle and last position; every interface x shuffle on/off x file_parallelism runs under a 60 s alarm and must raise; "
+         "a damage counts only if the format library itself (flatbuffers / numpy / TFRecord reader, independent of sedpack's iteration code) rejects the file. The lazy pool with a failing loader runs under the deterministic scheduler.",
+    note="Executor / asyncio / tf.data error propagation and Rust panic unwinding are specified externals; bounded time is a watchdog at run time and a step bound (mu) in the model.",
+    ref="DESIGN.md §5 C07"),
 }
 
 def main():
